@@ -324,7 +324,7 @@ EvalCalledLambda(t, env) ==     \* t = call whose func is a lam term
 (* i.e. the called lambda (lambda params: body)(args).  The table is rendered to real `def`s  *)
 (* and lambdas by the harness (harness/props_helpers.py HELPER_SOURCE must match).            *)
 LamD(ps, nd, body, defs) == T("lam", "", nd, ps, <<body>> \o defs)
-HelperNames == {"h_id", "h_inc", "h_sub", "h_lam", "h_nest", "h_nest2", "h_two", "h_cap", "h_kw", "h_d3"}
+HelperNames == {"h_id", "h_inc", "h_sub", "h_lam", "h_nest", "h_nest2", "h_two", "h_cap", "h_kw", "h_d3", "h_deep"}
 HelperLam(f) ==
     CASE f = "h_id"   -> Lam(<<"a">>, Name("a"))
       [] f = "h_inc"  -> Lam(<<"a">>, BinOp("+", Name("a"), IntC(1)))
@@ -339,6 +339,10 @@ HelperLam(f) ==
       [] f = "h_cap"  -> Lam(<<"a">>, Fn("Sum", <<Fn("Select", <<Attr(Name("a"), "trks"),
                                                      Lam(<<"t">>, BinOp("+", Attr(Name("t"), "pt"),
                                                                          Attr(Name("a"), "pt")))>>)>>))
+      \* a lambda nested two deep whose innermost parameter t is a likely caller-side name; uses the outer parameter
+      [] f = "h_deep" -> Lam(<<"c">>, Fn("Sum", <<Fn("SelectMany", <<Attr(Name("c"), "jets"),
+                                 Lam(<<"r">>, Fn("Select", <<Attr(Name("r"), "trks"),
+                                     Lam(<<"t">>, BinOp("+", Attr(Name("t"), "pt"), Attr(Name("c"), "met")))>>))>>)>>))
       [] f = "h_d3"   -> LamD(<<"x", "y", "z">>, 2,
                               BinOp("+", BinOp("*", Name("x"), IntC(100)), BinOp("+", BinOp("*", Name("y"), IntC(10)), Name("z"))),
                               <<IntC(2), IntC(7)>>)
